@@ -172,4 +172,13 @@ def plan(tier, seed):
         for fa in (["cb"], ["wait"]):
             items.append(dict(scenario="proto", params=dict(entry=n, fixA=fa, fixB=["cancel"], input_cancel=False),
                               bounds=dict(P=(1 if heavy else 2) if tier == "quick" else (2 if heavy else 3), post_release=True)))
+    # line mode: every source line of the future classes is a scheduling point, so that a completion can
+    # land between a check of an attribute and its use inside cancel()
+    lm = [("map", ["_impl/map.py"]), ("f_map", ["_impl/map.py"])]
+    if tier != "quick":
+        lm += [("timeout", ["_impl/map.py", "_impl/common.py"]), ("throttle", ["_impl/throttle.py", "_impl/map.py"]),
+               ("f_zip", ["_impl/futures/base.py", "_impl/futures/zip.py"]), ("map", ["_impl/map.py", "_impl/common.py"])]
+    for n, files in lm:
+        items.append(dict(scenario="proto", params=dict(entry=n, fixA=["cancel"], fixB=["cancel"], input_cancel=False),
+                          bounds=dict(P=1, line_files=files)))
     return items
